@@ -239,10 +239,23 @@ def r163(ctx, rep):
                 if node.targets[0].id not in masks:
                     masks[node.targets[0].id] = node
         exprs = {}
+
+        def expand1(e):
+            if isinstance(e, ast.Name):
+                ds = [n2 for n2 in ast.walk(f.node) if isinstance(n2, ast.Assign) and len(n2.targets) == 1 and isinstance(n2.targets[0], ast.Name) and n2.targets[0].id == e.id]
+                if len(ds) == 1:
+                    return ds[0].value
+            return e
+
         if "free_bd" in masks and "free_xl" not in masks:
             v = masks["free_bd"].value
             if isinstance(v, ast.BinOp) and isinstance(v.op, ast.BitAnd):
-                exprs["free_xl"], exprs["free_xu"] = v.left, v.right
+                sides = [expand1(v.left), expand1(v.right)]
+                for sd_ in sides:
+                    if mentions(sd_, "xl"):
+                        exprs["free_xl"] = sd_
+                    elif mentions(sd_, "xu"):
+                        exprs["free_xu"] = sd_
             node0 = masks["free_bd"]
         else:
             for k in ("free_xl", "free_xu"):
